@@ -242,4 +242,75 @@ theorem subtypeHits_overlap (env : Env) (strip : Int → Int) (raw : List Hit) (
   obtain ⟨h, ⟨hh, ho⟩, rfl⟩ := hs
   exact ⟨by simpa [overlapsWith] using ho, h, hh, rfl⟩
 
+/-! ### the whole record: `gather_by_query` + the gene loop -/
+
+theorem refine_nil (env : Env) (nb : Bool) : refine env nb [] = [] := by
+  cases nb <;> rfl
+
+theorem lookup_filterMap (env : Env) (nb : Bool) (hitsOf : Int → List Hit) (g : Int) : ∀ ks : List Int,
+    lookupGene ((ks.map fun k => (k, hitsOf k)).filterMap fun e =>
+        let refined := refine env nb e.2
+        if refined.isEmpty then none else some (e.1, refined)) g =
+      if g ∈ ks then refine env nb (hitsOf g) else []
+  | [] => by simp [lookupGene]
+  | k :: ks => by
+    have ih := lookup_filterMap env nb hitsOf g ks
+    simp only [List.map_cons, List.filterMap_cons]
+    by_cases he : (refine env nb (hitsOf k)).isEmpty = true
+    · simp only [he, if_true]
+      rw [ih]
+      by_cases hk : k = g
+      · subst hk
+        have : refine env nb (hitsOf k) = [] := List.isEmpty_iff.mp he
+        simp [this]
+      · have : (g ∈ k :: ks) ↔ g ∈ ks := by
+          simp only [List.mem_cons]
+          constructor
+          · rintro (h | h)
+            · exact absurd h.symm hk
+            · exact h
+          · exact Or.inr
+        simp only [this]
+    · simp only [he, Bool.false_eq_true, if_false]
+      by_cases hk : k = g
+      · subst hk
+        simp [lookupGene]
+      · have hb : (k == g) = false := by simpa using hk
+        have : (g ∈ k :: ks) ↔ g ∈ ks := by
+          simp only [List.mem_cons]
+          constructor
+          · rintro (h | h)
+            · exact absurd h.symm hk
+            · exact h
+          · exact Or.inr
+        simp only [this]
+        rw [← ih]
+        simp only [lookupGene, List.find?_cons, hb]
+
+/-- the entry of a gene in the result of `refine_hmmscan_results` is the refinement of that gene's
+    own hits — whatever else is in the hmmscan output and however the genes are interleaved -/
+theorem refineRecord_lookup (env : Env) (nb : Bool) (raw : List (Int × Hit)) (g : Int) :
+    lookupGene (refineRecord env nb raw) g = refine env nb ((raw.filter fun r => r.1 == g).map (·.2)) := by
+  unfold refineRecord gatherByQuery
+  rw [lookup_filterMap env nb (fun g => (raw.filter fun r => r.1 == g).map (·.2)) g]
+  split
+  · rfl
+  · rename_i hg
+    rw [mem_firstOcc] at hg
+    have : (raw.filter fun r => r.1 == g) = [] := by
+      rw [List.filter_eq_nil_iff]
+      intro r hr hk
+      apply hg
+      exact List.mem_map.mpr ⟨r, hr, by simpa using hk⟩
+    rw [this]
+    simp [refine_nil]
+
+/-- … and so it does not depend on the order of the hmmscan output -/
+theorem refineRecord_perm (env : Env) (nb : Bool) {r₁ r₂ : List (Int × Hit)} (h : r₁.Perm r₂) (g : Int) :
+    lookupGene (refineRecord env nb r₁) g = lookupGene (refineRecord env nb r₂) g := by
+  rw [refineRecord_lookup, refineRecord_lookup]
+  have hp : ((r₁.filter fun r => r.1 == g).map (·.2)).Perm ((r₂.filter fun r => r.1 == g).map (·.2)) :=
+    (h.filter _).map _
+  simp only [refine, beforeIncomplete, sortHits_eq_of_same_set (fun x => hp.mem_iff)]
+
 end ASV.HitCallers
